@@ -59,6 +59,13 @@ add("C14","model_checking","explicit-state exploration of ignore/edit/export his
     "For ~3000 documents (constructed near-identical-lint texts, every harvested seed, joined seeds): for every lint k (and every pair among the first four): ignore it; the lint is gone, every lint that differs in kind/message/suggestions or in the tokens within two characters is still there; for every edit of a menu of 11 (prepend word/sentence/quoted sentence/lone quote/paragraph, append, change a word before/after, change the nearest token outside the neighbourhood) whose premise holds (reference contexts equal), the corresponding lint of the edited text stays hidden; a serde_json round trip of the list changes nothing.",
     "edit menu (depth 1; append-then-prepend compositions in the thorough tier); documents with at least two lints", "§4.C14", "E2")
 
+add("C08","exploration","exhaustive enumeration of texts x spans for the position conversion and of diagnostics x in-range positions x suggestions through the real DocumentState, against a reference LSP client",
+    "(a) every text over {a, é, astral, tab, LF, CRLF, combining sequence} up to length 5 (6 thorough) x every span: span_to_range equals a reference LSP position model and range_to_span inverts it; (b) ~400 (all ~2300 thorough) harvested sentences x 12 placements (first/middle/last line, LF/CRLF, with/without trailing newline, behind astral characters) x {plaintext, markdown} through harper-ls's DocumentState: every diagnostic range covers exactly the lint, code actions requested at every character position inside the range contain that lint's fixes, every TextEdit applied by a reference client equals Suggestion::apply.",
+    "no lone CR; no positions inside surrogate pairs; the empty line after a trailing newline is excluded (deliberate quirk pinned by harper-ls's own issue_250 test)", "§4.C08", "E1")
+add("C09","model_checking","stateless exploration of the real server under a controlled executor: all applicable message histories up to a depth, and for back-to-back batches all schedules of external events within a deviation bound",
+    "The real Backend behind the real tower-lsp router is driven in-process: the harness polls every handler future by hand (woken tasks in FIFO order as FuturesUnordered does), holds every workspace/configuration answer, turns every blocking-pool file-I/O completion into an explicit event (single gated blocking thread) and controls admission (at most 4 in flight). Sequential histories: every applicable sequence up to depth 3 (4 thorough) over 14 operations on a saved and an unsaved document. Concurrent batches: every ordered pair (selected triples thorough) after several prefixes, every schedule with <= 1 (2) deviations from first-come-first-served delivery, one more for same-document pairs. Oracle at quiescence: last publishDiagnostics per open document == fresh reference lint of the client's newest text under the current dictionaries and configuration; closed/deleted documents empty. A failing schedule is replayed and must reproduce with the identical event trace before it is reported.",
+    "deviation and depth bounds; only external events are reordered (each explored schedule is one the real server can exhibit); HashMap iteration order inside the server is not owned (replay divergences are counted and skipped, never reported)", "§4.C09", "E3")
+
 claimed = [C[k] for k in sorted(C)]
 na = [dict(property_id=p["id"], reason="check under construction in this build phase; not claimed until its command exists and passes on the unchanged tree")
       for p in props if p["id"] not in C]
@@ -69,6 +76,7 @@ m = dict(version=1,
              baseline_off_cmd="cd /repo && RUSTUP_TOOLCHAIN=stable-x86_64-unknown-linux-gnu cargo nextest run --workspace --no-fail-fast --offline",
              source_commits=[], add_only=True),
   engines=[dict(name="E1 text-space explorer", path="/verif/harness/hv/src/{pool,spaces,sweep,small}.rs", serves_properties=[k for k in sorted(C) if C[k]["engine"]=="E1"], kind_free_text="exhaustive enumeration of finite input spaces over the real parsers/linters in watchdog-supervised worker processes"),
+           dict(name="E3 language-server explorer", path="/verif/harness/hv/src/{e3,c09}.rs", serves_properties=[k for k in sorted(C) if C[k]["engine"]=="E3"], kind_free_text="controlled executor over the unmodified harper-ls Backend and tower-lsp router: hand-polled handler futures, held client answers, gated blocking pool, deviation-bounded schedule enumeration with replay"),
            dict(name="E2 history explorer", path="/verif/harness/hv/src/{e2,c11,c14,c19}.rs", serves_properties=[k for k in sorted(C) if C[k]["engine"]=="E2"], kind_free_text="breadth-first enumeration of operation histories on long-lived real objects against reference models")],
   checks=claimed, not_applicable=na,
   notes="Exit codes: 0 held (open known findings printed as KNOWN-FINDING lines), 1 violation (VIOLATION lines), 2 machinery failure. Known findings: /verif/known_findings.txt.")
